@@ -3,6 +3,13 @@
 # the evidence next to what the engine measured.
 
 PROPS = {
+    "C09": {
+        "groups": [
+            {"pkg": "client", "tags": "verif,test", "harness": "^verifH_C09_"},
+        ],
+        "bounds": {"history file": "0..24 bytes of arbitrary content", "timeslot, value": "all 32-bit values"},
+        "outside": [],
+    },
     "C18": {
         "groups": [
             {"pkg": "glow", "tags": "verif", "harness": "^verifH_C18_", "now_hook": ["glow/event_log.go"], "unwind": 6},
